@@ -467,7 +467,7 @@ def gaussian_case(ctx, meta, states=None):
     fail, sig = None, ""
     Hin = input_precision(meta, n)          # reference that does NOT come from the object under test
     full_lower_by_tolerance = (not sparse) and lower and bool(np.any(np.triu(S, 1)))
-    if Hin is not None and not np.allclose(H, Hin, rtol=1e-7, atol=1e-9 * float(np.abs(Hin).max())):
+    if Hin is not None and not (float(np.abs(H - Hin).max()) <= (1e-4 if meta.get("variant") == "float32" else 1e-6) * float(np.abs(Hin).max())):
         fail = ("the object's logd is not the Gaussian log-density of the parameters it was given (%s:%s): Hessian differs from the "
                 "precision implied by the constructor arguments by %.3g (relative)" % (meta["form"], meta["shape"],
                 float(np.abs(H - Hin).max() / np.abs(Hin).max())))
@@ -969,7 +969,7 @@ def gmrf_case(ctx, meta, n1_states=None):
     fail, sig = None, ""
     bm = np.repeat(mean, n) if len(mean) == 1 else mean
     Hin = prec * (D.T @ D)       # D is a certificate checked exactly against the model's stencil (check_diffop)
-    if not np.allclose(H, Hin, rtol=1e-7, atol=1e-9 * float(np.abs(Hin).max())):
+    if not (float(np.abs(H - Hin).max()) <= 1e-6 * float(np.abs(Hin).max())):
         fail = ("GMRF(%s, order %d): the Hessian of the object's logd is not prec * D^T D for the documented difference operator "
                 "(relative difference %.3g)" % (bc, meta["order"], float(np.abs(H - Hin).max() / np.abs(Hin).max())))
         sig = "GMRF.logd|parameters"
